@@ -192,7 +192,7 @@ def tokenizeWithoutSpace (s : Str) : Except LexErr (List Tok) :=
 def liftLex {α} (r : Except LexErr α) : Out α :=
   match r with
   | .ok a => .ok a
-  | .error .tokenError => .error .tokenError
+  | .error .tokenError => .error .iface        -- `generated_tokens` turns tokenize.TokenError into an InterfaceError
   | .error .unsupported => .error .unsupported
 
 end Cutplace
